@@ -116,11 +116,11 @@ func (x *Exec) value(st *State, fr *Frame, in ssa.Value, k func(*State)) bool {
 		// iterator state: position (strings) or visited count (maps)
 		it := Val{T: v.Type(), L: nil, Fn: v, Bindings: []Val{xv}}
 		st.regs[v] = it
-		st.ghost[fmt.Sprintf("iter!%p", v)] = x.idxConst(0)
+		st.ghost[iterKey(v)] = x.idxConst(0)
 		if mt, ok := v.X.Type().Underlying().(*types.Map); ok && len(x.tc.leaves(mt.Elem())) == 1 && len(x.tc.leaves(mt.Key())) == 1 {
 			pk, _, ps, _ := x.mapArrays(st, mt)
-			st.ghost[fmt.Sprintf("iter!%p!p0", v)] = Select(x.heapArr(st, pk, ps), xv.L[0])
-			st.ghost[fmt.Sprintf("iter!%p!vis", v)] = &Term{Op: "constarr", S: ps.E, Args: []*Term{FalseT}}
+			st.ghost[iterKey(v)+"!p0"] = Select(x.heapArr(st, pk, ps), xv.L[0])
+			st.ghost[iterKey(v)+"!vis"] = &Term{Op: "constarr", S: ps.E, Args: []*Term{FalseT}}
 		}
 	case *ssa.Next:
 		x.next(st, fr, v)
